@@ -147,7 +147,8 @@ class VCSAPI:
     def status(self, required_files: typ.Set[str]) -> typ.List[str]:
         """Get status lines."""
         status_output = self('status')
-        status_items  = [line.split(" ", 1) for line in status_output.splitlines()]
+        status_lines  = [line.strip() for line in status_output.splitlines()]
+        status_items  = [line.split(None, 1) for line in status_lines if line]
 
         return [
             filepath.strip()
